@@ -98,3 +98,13 @@ chk("C07", "E6 cross-process comparator",
     "Every depth<=2 program is built in three fresh interpreters (hash seeds 0, 1, random) and twice within each: name, keys, sorted optimized graph keys, chunks, dtype and frisky output keys must agree everywhere; every collection is cloudpickled in one interpreter and loaded in the same and in another fresh interpreter: name, keys, chunks, dtype, frisky output keys unchanged and the value equals NumPy; an untokenizable source keeps its per-instance name.",
     "Trusted: dask.tokenize for callables (module-level functions only); scratch under /verif/.scratch.",
     "DESIGN.md §4 C07")
+chk("C20", "E1 (depth-3 exhaustive pre/fn/post enumeration)",
+    "complete enumeration of post(map_blocks(recording_fn, pre(x))) programs over every chunking, with the arguments observed inside the user function compared with the layout advertised at call time",
+    "Every combination of producer (rechunks, slices, concatenate, take, elemwise of differently chunked leaves, sliding-window reductions, cumsum, reshape, broadcast, transpose, reductions, diff, roll), recording function (block_info, block_id, both, explicit chunks=, two inputs, new_axis, drop_axis) and consumer (slices, rechunk, reduction, elemwise with sibling, take, concatenate) over every chunking of (6,) and (3,4) is computed; each invocation's chunk-location, array-location, chunk-shape, num-chunks, shape and received block shape must equal pre(x).chunks as advertised when map_blocks was called; values equal NumPy.",
+    "Trusted: calls on empty blocks (meta inference) are ignored; culled blocks need not be invoked.",
+    "DESIGN.md §4 C20")
+chk("C21", "E1 program explorer + in-process record executor",
+    "bounded exhaustive program exploration; the task records of every program are executed by a harness executor and compared block by block with the dask graph",
+    "For every program of the depth<=2 space __frisky_graph__() and __frisky_records_chunks__() either decline or produce records whose keys are consistent, dependencies produced and declared, acyclic, covering every __frisky_output_keys__() key, and whose execution (TaskRefs resolved in nested containers) gives the same block values as __dask_graph__(); groups of three collections sharing subtrees walked with one shared `seen` set must form a complete graph with the same values.",
+    "Trusted: dask graph block values as reference (its own defects are judged by C01/C04); generic GraphRecordsLayer only (no native extension).",
+    "DESIGN.md §4 C21")
